@@ -116,13 +116,13 @@ Proof.
 Qed.
 
 (* C11_subdiv_range *)
-Theorem subdiv_range rm_fixed bbox tol tol_deC bez1 bez2 maxits res :
-  bezier_intersections N rm_fixed bbox tol tol_deC bez1 maxits bez2 = IOk res ->
+Theorem subdiv_range rm_fixed bx_fixed mg_fixed bbox tol tol_deC ext bez1 bez2 maxits res :
+  bezier_intersections N rm_fixed bx_fixed mg_fixed bbox tol tol_deC ext bez1 maxits bez2 = IOk res ->
   forall t1 t2, In (t1, t2) res ->
     exists k, dyadic_odd t1 k /\ dyadic_odd t2 k /\ 0 < t1 < 1 /\ 0 < t2 < 1.
 Proof.
   intros H t1 t2 Hin.
-  destruct (subdiv_witness N rm_fixed bbox tol tol_deC bez1 bez2 maxits res H (t1, t2) Hin)
+  destruct (subdiv_witness N rm_fixed bx_fixed mg_fixed bbox tol tol_deC ext bez1 bez2 maxits res H (t1, t2) Hin)
     as (b1 & b2 & k & S1 & S2 & _).
   cbn [fst snd] in *. apply sub_of_dyadic in S1. apply sub_of_dyadic in S2.
   exists k. repeat split; auto; eapply dyadic_odd_open; eauto.
@@ -329,10 +329,10 @@ Proof.
   repeat split; lra.
 Qed.
 
-Theorem subdiv_distance_partial rm_fixed bbox tol tol_deC bez1 bez2 maxits res :
+Theorem subdiv_distance_partial rm_fixed mg_fixed bbox tol tol_deC ext bez1 bez2 maxits res :
   deg23 bez1 -> deg23 bez2 ->
   (forall b s, deg23 b -> 0 <= s <= 1 -> inbox (bbox b) (bezier_point N b s)) ->   (* C08: boxes contain the curves *)
-  bezier_intersections N rm_fixed bbox tol tol_deC bez1 maxits bez2 = IOk res ->
+  bezier_intersections N rm_fixed false mg_fixed bbox tol tol_deC ext bez1 maxits bez2 = IOk res ->
   forall t1 t2, In (t1, t2) res ->
   exists b1 b2,
     let '(x1, X1, y1, Y1) := bbox b1 in
@@ -342,7 +342,7 @@ Theorem subdiv_distance_partial rm_fixed bbox tol tol_deC bez1 bez2 maxits res :
     /\ (X1 - x1) * (Y1 - y1) < tol_deC /\ (X2 - x2) * (Y2 - y2) < tol_deC.
 Proof.
   intros D1 D2 Hbox H t1 t2 Hin.
-  destruct (subdiv_witness N rm_fixed bbox tol tol_deC bez1 bez2 maxits res H (t1, t2) Hin)
+  destruct (subdiv_witness N rm_fixed false mg_fixed bbox tol tol_deC ext bez1 bez2 maxits res H (t1, t2) Hin)
     as (b1 & b2 & k & S1 & S2 & Hi & A1 & A2).
   cbn [fst snd] in *.
   destruct (sub_of_param N NumR_ok bez1 b1 t1 k D1 S1) as [Db1 _].
@@ -359,4 +359,52 @@ Proof.
   apply Rlt_b_true in A1. apply Rlt_b_true in A2.
   destruct P1 as [[? ?] [? ?]], P2 as [[? ?] [? ?]], R1 as [[? ?] [? ?]], R2 as [[? ?] [? ?]].
   repeat split; try assumption; apply Rabs_le; lra.
+Qed.
+
+(* the repaired variant (closed boxes, stop on the boxes' EXTENT): now a distance bound does
+   follow — each coordinate of B1(t1) - B2(t2) is smaller than 2 ext *)
+Lemma boxes_share_point_closed b1 b2 :
+  boxes_intersect_closed N b1 b2 = true -> exists r, inbox b1 r /\ inbox b2 r.
+Proof.
+  destruct b1 as [[[x1 X1] y1] Y1], b2 as [[[x2 X2] y2] Y2].
+  unfold boxes_intersect_closed. rewrite andb_true_iff, !nmax_R, !nmin_R. cbn [leb NumR].
+  rewrite !Rle_b_true. intros [A B].
+  exists (Rmax x1 x2, Rmax y1 y2). cbn [inbox re im fst snd].
+  pose proof (Rmax_l x1 x2). pose proof (Rmax_r x1 x2). pose proof (Rmin_l X1 X2). pose proof (Rmin_r X1 X2).
+  pose proof (Rmax_l y1 y2). pose proof (Rmax_r y1 y2). pose proof (Rmin_l Y1 Y2). pose proof (Rmin_r Y1 Y2).
+  repeat split; lra.
+Qed.
+Lemma box_extent_lt b e : ltb N (box_extent N b) e = true ->
+  let '(x, X, y, Y) := b in X - x < e /\ Y - y < e.
+Proof.
+  destruct b as [[[x X] y] Y]. unfold box_extent. rewrite nmax_R. cbn [ltb sub NumR].
+  rewrite Rlt_b_true. intros H.
+  pose proof (Rmax_l (X - x) (Y - y)). pose proof (Rmax_r (X - x) (Y - y)). split; lra.
+Qed.
+
+Theorem subdiv_distance_fixed rm_fixed mg_fixed bbox tol tol_deC ext bez1 bez2 maxits res :
+  deg23 bez1 -> deg23 bez2 ->
+  (forall b s, deg23 b -> 0 <= s <= 1 -> inbox (bbox b) (bezier_point N b s)) ->
+  bezier_intersections N rm_fixed true mg_fixed bbox tol tol_deC ext bez1 maxits bez2 = IOk res ->
+  forall t1 t2, In (t1, t2) res ->
+    Rabs (re (bezier_point N bez1 t1) - re (bezier_point N bez2 t2)) < 2 * ext
+    /\ Rabs (im (bezier_point N bez1 t1) - im (bezier_point N bez2 t2)) < 2 * ext.
+Proof.
+  intros D1 D2 Hbox H t1 t2 Hin.
+  destruct (subdiv_witness N rm_fixed true mg_fixed bbox tol tol_deC ext bez1 bez2 maxits res H (t1, t2) Hin)
+    as (b1 & b2 & k & S1 & S2 & Hi & A1 & A2).
+  cbn [fst snd] in *.
+  destruct (sub_of_param N NumR_ok bez1 b1 t1 k D1 S1) as [Db1 _].
+  destruct (sub_of_param N NumR_ok bez2 b2 t2 k D2 S2) as [Db2 _].
+  pose proof (sub_of_centre N NumR_ok bez1 b1 t1 k D1 S1) as C1.
+  pose proof (sub_of_centre N NumR_ok bez2 b2 t2 k D2 S2) as C2.
+  assert (Hh : 0 <= half N <= 1) by (rewrite half_R; lra).
+  pose proof (Hbox b1 (half N) Db1 Hh) as P1. pose proof (Hbox b2 (half N) Db2 Hh) as P2.
+  rewrite C1 in P1. rewrite C2 in P2.
+  destruct (boxes_share_point_closed _ _ Hi) as [r [R1 R2]].
+  apply box_extent_lt in A1. apply box_extent_lt in A2.
+  destruct (bbox b1) as [[[x1 X1] y1] Y1], (bbox b2) as [[[x2 X2] y2] Y2].
+  cbn [inbox] in *.
+  destruct P1 as [[? ?] [? ?]], P2 as [[? ?] [? ?]], R1 as [[? ?] [? ?]], R2 as [[? ?] [? ?]], A1, A2.
+  split; apply Rabs_def1; lra.
 Qed.
